@@ -19,6 +19,7 @@ import (
 	"os"
 	"sort"
 	"strconv"
+	"strings"
 	"sync"
 	"sync/atomic"
 	"testing"
@@ -79,10 +80,10 @@ func (h hooks) OnFetchRecordUnbuffered(*kgo.Record, bool) {
 }
 
 // stress mixes the documented-concurrent-safe APIs on ONE client.
-func stress(seed uint64, tr *tracker) error {
+func stress(seed uint64, tr *tracker) (polled int64, err error) {
 	env, err := e2e.NewEnv(false, 3, nil, kfake.SeedTopics(4, "s-a", "s-b", "s-c"))
 	if err != nil {
-		return err
+		return 0, err
 	}
 	defer env.Close()
 	var clp *kgo.Client
@@ -98,17 +99,37 @@ func stress(seed uint64, tr *tracker) error {
 		}),
 	)
 	if err != nil {
-		return err
+		return 0, err
 	}
 	clp = cl
 	other, err := env.NewClient(kgo.ConsumerGroup("sg"), kgo.ConsumeTopics("s-a"), kgo.Balancers(kgo.CooperativeStickyBalancer()))
 	if err != nil {
 		cl.Close()
-		return err
+		return 0, err
 	}
+	var produced, fetched atomic.Int64
+	// warm-up: the member joins and consumes before the disruptive calls begin, so that the fetch
+	// and poll paths are live while everything else runs (a run that polled nothing observed
+	// nothing of the consumer)
+	for i := 0; i < 40; i++ {
+		cl.Produce(context.Background(), &kgo.Record{Topic: "s-a", Partition: int32(i % 3), Value: []byte("warm")}, nil)
+	}
+	for t0 := time.Now(); fetched.Load() == 0 && time.Since(t0) < 8*time.Second; {
+		ctx, cancel := context.WithTimeout(context.Background(), 100*time.Millisecond)
+		cl.PollFetches(ctx).EachRecord(func(*kgo.Record) { fetched.Add(1) })
+		other.PollFetches(ctx)
+		cancel()
+	}
+	// a standing partition-level pause: the topic's entry in the paused set then exists for the
+	// whole run, so every fetch request built and every poll consults its partition set while
+	// PauseResume below keeps adding to and deleting from the same topic's set
+	cl.PauseFetchPartitions(map[string][]int32{"s-b": {3}, "s-a": {3}})
 	stop := make(chan struct{})
 	var wg sync.WaitGroup
 	spawn := func(name string, fn func(rng *rand.Rand)) {
+		if strings.Contains(","+os.Getenv("VERIF_C41_SKIP")+",", ","+name+",") { // calibration knob
+			return
+		}
 		wg.Add(1)
 		go func() {
 			defer wg.Done()
@@ -126,7 +147,6 @@ func stress(seed uint64, tr *tracker) error {
 			}
 		}()
 	}
-	var produced atomic.Int64
 	spawn("Produce", func(rng *rand.Rand) {
 		t := []string{"s-a", "s-b", "s-c"}[rng.IntN(3)]
 		cl.Produce(context.Background(), &kgo.Record{Topic: t, Value: []byte("v")}, func(r *kgo.Record, err error) {
@@ -142,7 +162,7 @@ func stress(seed uint64, tr *tracker) error {
 		ctx, cancel := context.WithTimeout(context.Background(), 30*time.Millisecond)
 		fs := cl.PollFetches(ctx)
 		cancel()
-		fs.EachRecord(func(*kgo.Record) {})
+		fs.EachRecord(func(*kgo.Record) { fetched.Add(1) })
 	})
 	spawn("OtherMemberPoll", func(rng *rand.Rand) {
 		ctx, cancel := context.WithTimeout(context.Background(), 30*time.Millisecond)
@@ -161,19 +181,25 @@ func stress(seed uint64, tr *tracker) error {
 		time.Sleep(time.Millisecond)
 		cl.ResumeFetchTopics("s-a")
 		cl.ResumeFetchPartitions(map[string][]int32{"s-b": {0, 1}})
+		cl.PauseFetchPartitions(map[string][]int32{"s-a": {rng.Int32N(3)}})
+		cl.PauseFetchTopics() // the no-argument forms read the current set
+		cl.PauseFetchPartitions(nil)
+		cl.ResumeFetchPartitions(map[string][]int32{"s-a": {0, 1, 2}})
 	})
 	spawn("AddConsumeTopics", func(rng *rand.Rand) {
-		cl.AddConsumeTopics("s-b")
-		time.Sleep(3 * time.Millisecond)
+		time.Sleep(300 * time.Millisecond)
+		cl.AddConsumeTopics("s-b") // (re)joins the group: rare, so that the member consumes in between
+		time.Sleep(900 * time.Millisecond)
 	})
 	spawn("PurgeTopicsFromClient", func(rng *rand.Rand) {
-		cl.PurgeTopicsFromClient("s-c")
-		time.Sleep(5 * time.Millisecond)
+		time.Sleep(700 * time.Millisecond)
+		cl.PurgeTopicsFromClient("s-c") // forces a group rejoin each time: keep it rare enough for the group to consume in between
+		time.Sleep(700 * time.Millisecond)
 	})
 	spawn("ForceMetadataRefresh+LeaderMove", func(rng *rand.Rand) {
 		env.C.MoveTopicPartition([]string{"s-a", "s-b"}[rng.IntN(2)], int32(rng.IntN(4)), int32(rng.IntN(3)))
 		cl.ForceMetadataRefresh()
-		time.Sleep(4 * time.Millisecond)
+		time.Sleep(60 * time.Millisecond)
 	})
 	spawn("Gauges", func(rng *rand.Rand) {
 		cl.BufferedProduceRecords()
@@ -188,7 +214,7 @@ func stress(seed uint64, tr *tracker) error {
 		cancel()
 		time.Sleep(3 * time.Millisecond)
 	})
-	time.Sleep(time.Duration(1200+seed%800) * time.Millisecond)
+	time.Sleep(time.Duration(2500+seed%1000) * time.Millisecond)
 	// Close races everything else
 	done := tr.enter("Close")
 	cl.Close()
@@ -196,7 +222,8 @@ func stress(seed uint64, tr *tracker) error {
 	close(stop)
 	wg.Wait()
 	other.Close()
-	return nil
+	fmt.Printf("stress seed %d: promises %d, records polled %d\n", seed, produced.Load(), fetched.Load())
+	return fetched.Load(), nil
 }
 
 func TestCheck(t *testing.T) {
@@ -214,7 +241,7 @@ func TestCheck(t *testing.T) {
 		}
 		mu.Unlock()
 	}
-	nP, nC, nG, nS := r.Pick(6, 40), r.Pick(4, 30), r.Pick(8, 60), r.Pick(4, 30)
+	nP, nC, nG, nS := r.Pick(16, 80), r.Pick(4, 30), r.Pick(12, 80), r.Pick(4, 30)
 	if v := os.Getenv("VERIF_C41_ONLY"); v != "" { // calibration knob: run one workload family only
 		n, _ := strconv.Atoi(os.Getenv("VERIF_C41_N"))
 		nP, nC, nG, nS = 0, 0, 0, 0
@@ -266,11 +293,14 @@ func TestCheck(t *testing.T) {
 		runs++
 		mu.Unlock()
 	})
+	var stressPolled int64
 	for i := 0; i < nS; i++ {
-		if err := stress(uint64(r.Seed)<<20|uint64(i), tr); err != nil {
+		n, err := stress(uint64(r.Seed)<<20|uint64(i), tr)
+		if err != nil {
 			fmt.Println("stress error:", err)
 			continue
 		}
+		stressPolled += n
 		runs++
 	}
 	var ov []string
@@ -280,6 +310,6 @@ func TestCheck(t *testing.T) {
 		}
 	}
 	sort.Strings(ov)
-	vh.C41Obs(runs, ov, map[string]any{"producer_scenarios": nP, "consumer_scenarios": nC, "group_scenarios": nG, "api_mix_stress_runs": nS})
+	vh.C41Obs(runs, ov, map[string]any{"producer_scenarios": nP, "consumer_scenarios": nC, "group_scenarios": nG, "api_mix_stress_runs": nS, "api_mix_stress_records_polled": stressPolled})
 	fmt.Printf("C41 workloads done: %d runs, %d overlapping API pairs\n", runs, len(ov))
 }
